@@ -31,6 +31,7 @@ type Plan struct {
 
 	Watch []WatchSpec `json:"watch,omitempty"` // component simulation of the chain watchers (C20)
 	Comp  []CompOp    `json:"comp,omitempty"`  // component simulation scripts (policy C25, peersync C28, ...)
+	Lab   *LabCfg     `json:"lab,omitempty"`   // script laboratory (C02): every key and preimage in the simulator's hands
 
 	// Heal phase (liveness properties): faults stop, chain advances, restarts happen.
 	Heal HealCfg `json:"heal"`
